@@ -109,15 +109,24 @@ func (c *collection) updateIndexedDoc(
 // withStoredIndexedValues returns the document the indexes have to describe after an update.
 //
 // The document given to an update may carry the changed fields only. An indexed field it does
-// not carry keeps the value of the stored document, it must not be indexed as nil. If the given
-// document carries all indexed fields that have a stored value it is returned as is.
+// not carry keeps the value of the stored document, it must not be indexed as nil. For a counter
+// field the document carries the increment, the index holds the total. If the given document
+// carries the new value of all indexed fields that have a stored value it is returned as is.
 func (c *collection) withStoredIndexedValues(oldDoc, doc *client.Document) (*client.Document, error) {
+	isIncrement := func(name string, val *client.FieldValue) bool {
+		fd, ok := c.Definition().GetFieldByName(name)
+		return ok && (fd.Typ == client.PN_COUNTER || fd.Typ == client.P_COUNTER) && val.IsDirty()
+	}
+
 	isComplete := true
 	for _, index := range c.indexes {
 		for _, field := range index.Description().Fields {
-			_, newErr := doc.GetValue(field.Name)
+			newVal, newErr := doc.GetValue(field.Name)
 			_, oldErr := oldDoc.GetValue(field.Name)
 			if newErr != nil && oldErr == nil {
+				isComplete = false
+			}
+			if newErr == nil && oldErr == nil && isIncrement(field.Name, newVal) {
 				isComplete = false
 			}
 		}
@@ -132,20 +141,48 @@ func (c *collection) withStoredIndexedValues(oldDoc, doc *client.Document) (*cli
 	}
 	for _, index := range c.indexes {
 		for _, field := range index.Description().Fields {
-			val, err := doc.GetValue(field.Name)
-			if err != nil {
-				val, err = oldDoc.GetValue(field.Name)
-			}
-			if err != nil {
+			newVal, newErr := doc.GetValue(field.Name)
+			oldVal, oldErr := oldDoc.GetValue(field.Name)
+			var value any
+			switch {
+			case newErr == nil && oldErr == nil && isIncrement(field.Name, newVal):
+				value = addToCounter(oldVal.Value(), newVal.Value())
+			case newErr == nil:
+				value = newVal.Value()
+			case oldErr == nil:
+				value = oldVal.Value()
+			default:
 				continue
 			}
-			err = merged.Set(field.Name, val.Value())
+			err = merged.Set(field.Name, value)
 			if err != nil {
 				return nil, err
 			}
 		}
 	}
 	return merged, nil
+}
+
+// addToCounter returns the total of a counter field after the given increment.
+func addToCounter(total, increment any) any {
+	switch t := total.(type) {
+	case int64:
+		if i, ok := increment.(int64); ok {
+			return t + i
+		}
+	case float64:
+		if i, ok := increment.(float64); ok {
+			return t + i
+		}
+	case float32:
+		if i, ok := increment.(float32); ok {
+			return t + i
+		}
+	}
+	if total != nil && increment == nil {
+		return total
+	}
+	return increment
 }
 
 func (c *collection) deleteIndexedDoc(
